@@ -65,14 +65,19 @@ def shim_run(first, count, sched_seed):
     return (outs(r.stdout) if r.returncode == 0 else None), r.stderr[-300:]
 
 
+import re
+_OUT = re.compile(r"OUT (\d+) (\d+) ([0-9a-f]*)(?: \| ([^\n]*?))?(?=OUT |\n|$)")
+
+
 def outs(text):
-    d = {}
-    lines = []
-    for l in text.splitlines():
-        if l.startswith("OUT "):
-            parts = l.split(" ", 3)
-            lines.append((int(parts[1]), parts[3].split(" | ")[0], l.split(" | ")[-1]))
-    return lines
+    """all results in `text`; tolerant of lines torn by concurrently printing Miri seeds (a torn line
+    simply does not parse as a complete result: hex length must match the printed byte count)"""
+    res = []
+    for m in _OUT.finditer(text):
+        ident, n, hx, desc = int(m.group(1)), int(m.group(2)), m.group(3), (m.group(4) or "")
+        if len(hx) == 2 * n:
+            res.append((ident, hx, desc))
+    return res
 
 
 def native(kind, first, count, pool, tiny):
@@ -133,13 +138,17 @@ def main(prop, tier, seed):
                                 bytes=len(want) // 2, identical_outputs=len(got)))
         bad = [g for g in got if g[1] != want]
         if bad or len(got) != b - a:
-            # find the seed: re-run one by one
+            # the seeds of a many-seeds run print concurrently and may tear each other's lines, so a
+            # mismatch or a missing line is only a suspicion: re-run the seeds one by one (exact, serial)
             culprit = None
             for s in range(a, b):
                 g1, rc1, _ = miri(inp, pool, rate, None, single=s)
                 if not g1 or g1[0][1] != want:
                     culprit = s
+                    bad = g1 or bad
                     break
+            if culprit is None:
+                continue
             path = os.path.join(ROOT, "replays", f"C18-miri-input{inp}-pool{pool}-rate{rate}-seed{culprit}.json")
             json.dump(dict(property="C18", engine="miri", input=inp, desc=desc, pool=pool, preemption_rate=rate,
                            miri_seed=culprit, expected=want, got=(bad[0][1] if bad else "missing output / crash"),
